@@ -198,3 +198,25 @@ Proof.
   apply andb_prop in H. destruct H as [H _]. apply andb_prop in H. destruct H as [_ H].
   rewrite forallb_forall in H. apply pair_ok_sound, H, Hin.
 Qed.
+
+(* mirroring (from the table) and transparency (from the codec laws) combined, both directions *)
+Theorem tunnel_transparent_of_mirror : forall (cipher : keyclass -> codec) (comp : codec),
+  (forall k, codec_lawful (cipher k)) -> codec_lawful comp ->
+  forall sites p, pair_mirrors sites p ->
+  exists sa sb, find_site (fst (sp_a p)) (snd (sp_a p)) sites = Some sa /\
+                find_site (fst (sp_b p)) (snd (sp_b p)) sites = Some sb /\
+  forall fe fc la lb ba bb cs, 0 < ba -> 0 < bb ->
+  exists x y, build_site fe fc la (sp_ka p) sa = Some x /\ build_site fe fc lb (sp_kb p) sb = Some y /\
+    (exists ws, st_write (sems cipher comp ba x) cs = Some ws /\
+       st_read (sems cipher comp bb y) (st_flat ws) = st_flat cs /\
+       forall w, st_prefix w (st_flat ws) -> st_prefix (st_read (sems cipher comp bb y) w) (st_flat cs)) /\
+    (exists ws, st_write (sems cipher comp bb y) cs = Some ws /\
+       st_read (sems cipher comp ba x) (st_flat ws) = st_flat cs /\
+       forall w, st_prefix w (st_flat ws) -> st_prefix (st_read (sems cipher comp ba x) w) (st_flat cs)).
+Proof.
+  intros cipher comp Hc Hz sites p (sa & sb & Ha & Hb & H).
+  exists sa, sb. split; [exact Ha|]. split; [exact Hb|]. intros fe fc la lb ba bb cs Hba Hbb.
+  destruct (H fe fc la lb) as (x & y & Hx & Hy & He & _). exists x, y. split; [exact Hx|]. split; [exact Hy|]. split.
+  - exact (mirror_transparent cipher comp Hc Hz ba bb x y cs Hba Hbb He).
+  - exact (mirror_transparent cipher comp Hc Hz bb ba y x cs Hbb Hba (eq_sym He)).
+Qed.
